@@ -262,10 +262,8 @@ class BPMEvent(Event):
                 ``line``.
         """
 
-        bpm_whole_part_str, bpm_decimal_part_str = data.raw_bpm[:-3], data.raw_bpm[-3:]
-        bpm_whole_part = int(bpm_whole_part_str) if bpm_whole_part_str != "" else 0
-        bpm_decimal_part = int(bpm_decimal_part_str) / 1000
-        bpm = bpm_whole_part + bpm_decimal_part
+        # The last 3 digits are the decimal places; a single division rounds only once.
+        bpm = int(data.raw_bpm) / 1000
 
         if prev_event is None:
             timestamp, proximal_bpm_event_index = Timestamp(timedelta(0)), 0
